@@ -102,9 +102,9 @@ func installFault(f *prog.WriterFault) {
 		}
 		ctl.OnFire = func() { mark("fault-fired\n") }
 		if f.Which == "data" {
-			w.VerifWrapWriters(func(d recordio.WriterI) recordio.WriterI { return &failw.Data{W: d, C: ctl} }, nil)
+			w.VerifWrapWriters(func(d recordio.WriterI) recordio.WriterI { return &failw.Data{WriterI: d, C: ctl} }, nil)
 		} else {
-			w.VerifWrapWriters(nil, func(i rProto.WriterI) rProto.WriterI { return &failw.Index{W: i, C: ctl} })
+			w.VerifWrapWriters(nil, func(i rProto.WriterI) rProto.WriterI { return &failw.Index{WriterI: i, C: ctl} })
 		}
 		mark(fmt.Sprintf("fault-armed %s %d\n", f.Target, n))
 	})
